@@ -845,7 +845,8 @@ export class RegexRuntype extends BaseRuntype {
 
   constructor(metadata: RuntypeMetadata | undefined, regex: RegExp, description: string) {
     super(metadata);
-    this.regex = regex;
+    // the generated expression is not anchored; a template literal type must match the whole string
+    this.regex = new RegExp(`^(?:${regex.source})$`, regex.flags);
     this.description = description;
   }
 
